@@ -11,6 +11,7 @@ from sa.source import class_assigns
 from sa.props._lib_d import (NONNULL, call_nodes, calls_with, const_value_is, handler_names, implied, local_def, path_under, peval,
                              reach_under, self_assigns, slice_parts, succ_of, test_value)
 from sa.props._lib_d import must_pass_under as _must_pass_under
+from sa.props._lib_d import written_names
 from sa.props._lib_d import Views, resolve_locals
 from sa.props._lib_d import MiniVM, VMContext, VMError, VMExc, VMObj, VMRaise, VMStub, _NativeRaise
 from sa.source import AnalysisError
@@ -593,9 +594,22 @@ def _check(ctx):
             ctx.check(len(call.args) == 1 and src(call.args[0]) == dparam, "wrapper/feeds-segment", c, "the parser is not fed exactly the received segment")
             st = g.node(n).ast
             tg = st.targets[0] if isinstance(st, ast.Assign) else None
-            ok = isinstance(tg, ast.Tuple) and len(tg.elts) == 2 and src(tg.elts[0]) == "self._proxyInfo" and isinstance(tg.elts[1], ast.Name)
-            ctx.check(ok, "wrapper/feed-result-stored", c, "the (info, remaining) result of feed() is not stored as self._proxyInfo / remaining")
-            rem = tg.elts[1].id if ok else None
+            pair = isinstance(tg, ast.Tuple) and len(tg.elts) == 2 and isinstance(tg.elts[1], ast.Name)
+            rem = tg.elts[1].id if pair else None
+            if pair and src(tg.elts[0]) == "self._proxyInfo":
+                ctx.ok("wrapper/feed-result-stored", c)
+            elif pair and isinstance(tg.elts[0], ast.Name):
+                # (info, remaining) unpacked into locals: the first must reach self._proxyInfo on every normal way out, unchanged
+                iv = tg.elts[0].id
+                stores = self_assigns(g, "_proxyInfo", lambda v: isinstance(v, ast.Name) and v.id == iv)
+                rebound = [x.id for x in g.nodes if x.kind == "stmt" and x.id != n and x.ast is not None and iv in written_names(x.ast)]
+                w = g.must_pass([s_ for s_ in succ_of(g, n, None)], stores) if stores else [n]
+                ctx.check(bool(stores) and w is None and not rebound, "wrapper/feed-result-stored", c,
+                          "the parsed header returned by feed() is unpacked into a local that does not reach self._proxyInfo on every path (later segments are "
+                          "parsed as a header again)", witness=g.describe(w))
+            else:
+                ctx.note("wrapper/feed-result-stored, wrapper/only-remaining-forwarded: the result of feed() is not unpacked into (info, remaining) here (" + c +
+                         "); what is stored and forwarded is decided by the evaluated rules (segmentation/*)")
             hs = [h for h in succ_of(g, n, "exc") if g.node(h).kind == "handler"]
             good_h = [h for h in hs if set(handler_names(g.node(h).ast)) & {"InvalidProxyHeader", "Exception", "BaseException"}]
             ctx.check(bool(good_h), "wrapper/invalid-header-closes", c + " | handler",
@@ -612,6 +626,8 @@ def _check(ctx):
                 cf = ctx.construct(q, fc)
                 if implied(g, m, [{"self._proxyInfo": NONNULL}], [{"self._proxyInfo": None}]):
                     ctx.check(a == dparam, "wrapper/pass-through", cf, "after the header, the application is not given exactly the received segment")
+                elif rem is None:
+                    continue
                 else:
                     ok2 = a == rem and g.must_precede([n], [m], exc=True) is None and g.path([n], [m], edge_ok=lambda a_, b_, l: l != "exc") is not None
                     ctx.check(ok2, "wrapper/only-remaining-forwarded", cf,
@@ -635,7 +651,11 @@ def _check(ctx):
         for a in acc:
             inl_ = _views(ctx).inliner(W)
             fn_ = a.func.split(".")[-1]
-            ok = inl_.permitted(fn_, {"__init__"}) or (inl_.permitted(fn_, {"dataReceived"}) and any(src(a.node) == src(g.node(n).ast) for n in fd))
+            from_feed = {t.elts[0].id for n in fd for st_ in [g.node(n).ast] if isinstance(st_, ast.Assign) for t in st_.targets
+                         if isinstance(t, ast.Tuple) and len(t.elts) == 2 and isinstance(t.elts[0], ast.Name)}
+            from_feed = {v for v in from_feed if sum(1 for x in walk_local(f) if isinstance(x, ast.stmt) and v in written_names(x)) == 1}
+            via_local = isinstance(a.node, ast.Assign) and isinstance(a.node.value, ast.Name) and a.node.value.id in from_feed
+            ok = inl_.permitted(fn_, {"__init__"}) or (inl_.permitted(fn_, {"dataReceived"}) and (via_local or any(src(a.node) == src(g.node(n).ast) for n in fd)))
             ctx.check(ok, "wrapper/proxyinfo-who-may-write", ctx.construct(Q + "_wrapper." + a.func, a.node), "_proxyInfo is set from something other than the parser's result")
     kmin = _evaluated(ctx, K)
     with ctx.section("sniff, structural layer"):
@@ -656,7 +676,6 @@ def _check(ctx):
                 thresholds.append(abs(nf[1]) + 1)
             elif dparam in txt.replace(lentxt, ""):
                 content.append(t.id)
-        from sa.props._lib_d import written_names
         rebound = any(dparam in written_names(st) for st in walk_local(f) if isinstance(st, ast.stmt))
         if rebound:
             ctx.note("sniff/short-segment-refused: the received segment is re-bound (joined with buffered bytes?) before it is measured, so its length is no "
@@ -860,6 +879,9 @@ _SNIFF_FIXED = ("            data = self._pending + data\n            self._pend
                 "                self._pending = data\n                return None\n"
                 "            else:\n                self.loseConnection()\n                return None\n")
 MUTANTS = [
+    Mutant("feed-result-through-local-stored-only-when-bytes-follow", W, "            self._proxyInfo, remaining = parser.feed(data)\n            if remaining:\n                self.wrappedProtocol.dataReceived(remaining)\n",
+           "            parsed, remaining = parser.feed(data)\n            if remaining:\n                self._proxyInfo = parsed\n                self.wrappedProtocol.dataReceived(remaining)\n",
+           expect_rule="wrapper/feed-result-stored"),
     Mutant("v1-sniff-needs-longer-segment", W, "            elif len(data) >= 8 and data[:5] == V1Parser.PROXYSTR:", "            elif len(data) >= 12 and data[:5] == V1Parser.PROXYSTR:",
            expect_rule="sniff/valid-prefix-rejected"),
     Mutant("forward-before-header-parsed", W, "            self._proxyInfo, remaining = parser.feed(data)\n            if remaining:\n                self.wrappedProtocol.dataReceived(remaining)\n",
@@ -933,6 +955,7 @@ MUTANTS = [
            expect_rule="v1table/allowed-protocols"),
 ]
 SILENT = [
+    Silent("feed-result-unpacked-into-locals-first", W, "            self._proxyInfo, remaining = parser.feed(data)\n", "            parsed, remaining = parser.feed(data)\n            self._proxyInfo = parsed\n"),
     Silent("sniff-in-static-helper-that-raises-for-garbage", W,
            "            if (\n                len(data) >= 16\n                and data[:12] == V2Parser.PREFIX\n                and ord(data[12:13]) & 0b11110000 == 0x20\n            ):\n"
            "                self._parser = parser = V2Parser()\n            elif len(data) >= 8 and data[:5] == V1Parser.PROXYSTR:\n                self._parser = parser = V1Parser()\n"
